@@ -170,6 +170,22 @@ CHECKS = {
             "minimalloc's own correctness assumed (contract stub); dynamic mode out of scope; lifetime programs sampled by VERIF_SEED "
             "(2..3 buffers, nesting <= 2).",
             "symbolic execution of the real passes (int proxies as IR constants) + symbolic IR interpreter + z3; nondeterministic contract stub for the external solver", "3/C11"),
+    "C12": (TV,
+            "Translation validation on a buffer-contents machine: generated functions (arguments, allocations, a constant global, a "
+            "memref-typed constant, row-tile subviews with static and symbolic offsets, accelerator operations as linalg.generic / "
+            "dart.operation in any order and inside loops with symbolic trip counts, copies and other consumers on the original "
+            "buffers, optional returned buffer, a family where one constant is tiled by several views) run before and after "
+            "alloc-to-global, set-memory-space, layout casts to random dense tiled-strided layouts on accelerator operands (as "
+            "set-memory-layout places them), realize-memref-casts. Buffers are z3 arrays with symbolic contents; the after-program "
+            "addresses every element through an independent evaluation of the layout in the value's type; z3 proves per consumer "
+            "and element that it reads the same logical value as in the source program, that final argument contents and returned "
+            "buffers agree, and that every subview result type addresses the elements it views; accelerator operands are in L1, the "
+            "signature keeps L3/row-major. transform_constant: per dense layout, symbolic logical index over distinct element values "
+            "(parametric in the values); transpose_tuple on symbolic contents.",
+            "programs and layouts sampled by VERIF_SEED; 4x4/2x4 buffers; K=2 unrolling; accelerator operations are assumed to overwrite "
+            "their whole output and not to read it; three known findings (one fill and one copy-back per cast value) are suppressed "
+            "by signature only, using a taint analysis of the after-run that never decides an obligation.",
+            "bounded symbolic execution of before/after IR on z3 arrays + per-element equalities and layout-address identities discharged by z3", "3/C12"),
     "C13": (OT,
             "Generated functions mixing memref.copy (data mover), linalg.generic (compute core) and un-dispatched consumers on shared "
             "allocations and function arguments, subviews with symbolic offsets, nested loops with symbolic and constant (partial "
